@@ -5,6 +5,7 @@ import os
 from harness.common import facts as F
 from harness.common import build
 from . import c05facts
+from . import translate
 from . import world as W
 from . import gen as G
 
@@ -36,25 +37,39 @@ ASSUMPTIONS = [
     'policy / default-permission / route statements are written before the first commit; a program has at most one of each',
     'exception-context views are unnamed, wrapper views are named w1/w2 and w2 has no wrapper (no wrapper cycles)',
     'a request path + "/" never matches a route (AppendSlashNotFoundViewFactory falls through to the wrapped view)',
+    'translator assumptions: A1 the view-lookup cache misses (its transparency is C15\'s), A2 no response/finished callbacks and no '
+    'event subscribers, A3 guards `if <unmodelled state>: raise RuntimeError` do not fire, A4 sys.exc_info() in _error_handler is the '
+    'exception the tween caught',
 ]
 TRUSTED = [
-    'hand-written model coq/Model/C05.v of _secured_view, the deriver pipeline, add_view registration, the exception-view '
-    'directives, _call_view, render_view_to_response, the router / exception-view tween (shape-pinned, 40 pins)',
+    'translator harness/c05/translate.py: its PRIMITIVE TABLE (which Python leaf expression / library call / exception class stands '
+    'for which primitive of Model/C05_base.v or parameter of the generated definition) and its assumptions A1-A4 (cache miss, no '
+    'callbacks/subscribers, guards on unmodelled state, sys.exc_info) -- control flow is translated mechanically',
+    'hand-written reference model coq/Model/C05.v for what is NOT regenerated: the deriver pipeline composition, add_view '
+    'registration, the exception-view directives, owrapped/decorated/csrf wrappers, MultiView (32 shape pins + 2 masked pins)',
     'Model/C03.v (registration, MultiView, lookup) and Model/C18.v (sorter, default deriver declarations), imported unchanged',
 ]
-TECHNIQUE = ('Coq proof (trace invariants by induction over wrapper nesting, the lookup loops and the wrapper-view fuel; '
-             'sortedness argument for the commit phases; vm_compute over the regenerated deriver declarations) on a hand-written '
-             'Gallina model + extracted-model differential correspondence; the Coq judge is run on the implementation\'s log')
-LEVEL_TEXT = ('Machine-checked theorems over the executable model, for every registry, decision table and request: every decorator '
-              'entry and body execution of a view whose _secured_view closed over permission p is preceded in the same request by '
-              'Permits p ctx true for the context it is called with; a refusal is the last event of its call and raises HTTPForbidden '
-              '(403 handling, or propagation when an exception view was being rendered); views without a closed-over permission '
-              'cause no policy call; the closed-over permission is characterised by a table (explicit, else default unless '
-              'exception-only, marker = none, no policy = none); views are derived under the final phase-1/2 registry state of '
-              'their commit whatever the statement order; secured_view is the outermost sorted deriver.')
-LEVEL_NOTE = ('Trusted: Coq kernel; hand-written model (shape-pinned, validated by correspondence); Python harness; zope.interface '
-              'as oracle. The judge (declarative trace clauses over the program as written) is run on every implementation log; '
-              'its acceptance of every model trace is validated by the run and proved only clause-wise at registry level.')
+TECHNIQUE = ('Coq proof about a Gallina program whose control flow is TRANSLATED from the Python source on every run '
+             '(_secured_view, secured_view, _authdebug_view, _find_views, _call_view, excview_tween, _error_handler, '
+             'invoke_exception_view, Router.invoke_request, the view-execution part of Router.handle_request, '
+             'default_exceptionresponse_view): generated-equals-model theorems proved once (induction per loop, case split on the '
+             'table atoms, scripts independent of the generated text), property theorems restated about the generated request path; '
+             'trace invariants by induction over wrapper nesting / lookup loops / wrapper fuel; sortedness argument for commit phases; '
+             'extracted regenerated program run differentially against the implementation; the Coq judge is run on the implementation log')
+LEVEL_TEXT = ('Machine-checked theorems over the request path REGENERATED from the source (gen_router = invoke_request(excview_tween('
+              'handle_request/_call_view/_find_views), _error_handler/invoke_exception_view)), for every registry, decision table and '
+              'request: every decorator entry and body execution of a view whose regenerated _secured_view closed over permission p is '
+              'preceded in the same request by Permits p ctx true for the context it is called with; a refusal is the last event of '
+              'its call and raises HTTPForbidden (403 handling, or propagation while an exception view is rendered); views without a '
+              'closed-over permission cause no policy call; the closed-over permission is characterised by the table (explicit, else '
+              'default unless exception-only, marker = none, no policy = none); views are derived under the final phase-1/2 state of '
+              'their commit whatever the statement order (also for sequences of commits); secured_view is the outermost sorted deriver, '
+              'csrf_view directly under it; the judge clauses J1/J2 accept every model trace; secure=False is never used by the router.')
+LEVEL_NOTE = ('Trusted: Coq kernel; the translator\'s primitive table and assumptions A1-A4; the hand-written model for the parts that '
+              'are not regenerated (shape-pinned, validated by correspondence); Python harness; zope.interface as oracle. A semantics-'
+              'preserving rewrite of a translated function raises no alarm; a semantic change makes a generated_is_model theorem fail and '
+              'the correspondence/judge run produces the replay. C03 (a dependency) still pins _call_view/_find_views whole. Judge '
+              'clauses J3-J6 are validated by the run, not proved at judge level.')
 
 _facts_cache = {}
 
@@ -66,7 +81,25 @@ def facts(src):
     problems += pr
     _facts_cache['vals'] = vals
     summary.update({k: (list(v) if isinstance(v, tuple) else v) for k, v in vals.items()})
-    return {'coq': c05facts.emit(vals), 'summary': summary, 'problems': problems}
+    # the control flow of the view-execution core, regenerated from the source (harness/c05/translate.py)
+    gen, tproblems, tsummary = translate.translate_tree(src)
+    problems += tproblems
+    try:                                       # functions of which only a fragment is translated: pin on the rest
+        with open(os.path.join(HERE, 'pins_masked.json')) as f:
+            want = json.load(f)
+        got = translate.masked_shapes(src)
+        for k, w in want.items():
+            summary[k] = got.get(k)
+            if got.get(k) != w:
+                problems.append('shape pin %s changed (%s -> %s): the hand-written model follows the previous text' % (k, w, got.get(k)))
+    except Exception as e:
+        problems.append('masked shape pins could not be computed: %r' % e)
+    summary.update(tsummary)
+    coq = c05facts.emit(vals)
+    coq += ('\n(* ---- regenerated from the source by harness/c05/translate.py: control flow translated mechanically,\n'
+            '   leaves through the primitive table (see that file) ---- *)\n'
+            'Require Import Verif.Gen.Facts_C03 Verif.Model.C03 Verif.Model.C05_base.\n' + translate.emit(gen))
+    return {'coq': coq, 'summary': summary, 'problems': problems}
 
 
 def _vals():
@@ -217,13 +250,17 @@ def from_wire(case, raw):
     if raw == [['bad']] or not isinstance(raw, list) or len(raw) != 2:
         return {'model': ['MODEL-BAD', raw], 'spec': None}
     dtab, per = raw
-    model, masks = [], []
-    for tr, fin, mask, variant_ok in per:
+    model, masks, differs = [], [], False
+    for tr, fin, mask, variant_ok, gen_same in per:
+        if not gen_same:         # the program regenerated from the source differs from the reference model on this input
+            differs = True
         if not variant_ok:       # the judge's way of telling the variants apart does not hold for this case: make it visible
             return {'model': ['MODEL-VARIANT-ASSUMPTION-BROKEN', raw], 'spec': None}
         evs = [_ev(e) for e in tr]
         model.append([evs, _out(evs, fin)])
         masks.append(mask)
+    if differs:            # a correspondence failure of its own kind; the judge still runs on the implementation's log
+        return {'model': ['REGENERATED-PROGRAM-DIFFERS-FROM-MODEL', model], 'spec': [masks, model, dtab]}
     return {'model': model, 'spec': [masks, model, dtab]}
 
 
